@@ -73,3 +73,10 @@ func qMultiReassign(w io.Writer, b []byte) (int, error) {
 func qUnderefAddr(x qT) int { return (*&x).v }
 
 func qUnderefRecv(ch chan *qT) int { return (*<-ch).v }
+
+// the same with the operand parenthesised by the user: the parentheses must survive in the suggestion
+func qUnderefParenAddr(x qT) int { return (*(&x)).v }
+
+func qUnderefParenRecv(ch chan *qT) int { return (*(<-ch)).v }
+
+func qUnderefParenIdent(k *qT) int { return (*(k)).v }
